@@ -176,12 +176,13 @@ func stalled(p plan, res result) bool {
 }
 
 // runEtcdRetry repeats a stalled (or infrastructure-failed) run on a fresh key,
-// at most three attempts; the last attempt is emitted whatever happened.
+// at most four attempts; a run that is still stalled after the last attempt is
+// dropped by the caller (counted in the evidence), never emitted.
 func runEtcdRetry(env *locklog.Etcd, k int, p plan) (res result) {
 	for a := 1; ; a++ {
 		res = runEtcd(env, fmt.Sprintf("k%d-%d", k, a), p)
 		res.attempts = a
-		if a == 3 || (res.infra == "" && !stalled(p, res)) {
+		if a == 4 || (res.infra == "" && !stalled(p, res)) {
 			return res
 		}
 	}
@@ -215,8 +216,15 @@ func stream(t *testing.T, backend string, exec func(k int, p plan) result) {
 	results := make([]result, len(plans))
 	locklog.Pool(len(plans), 6, func(k int) { results[k] = exec(k, plans[k]) })
 
+	dropped := 0
 	for k, p := range plans {
 		res := results[k]
+		if backend == "etcd" && res.infra == "" && stalled(p, res) {
+			// the environment, not the code under test, decided this run (see stalled)
+			r.Count("runs_dropped_etcd_stalled")
+			dropped++
+			continue
+		}
 		tmo := make([]int64, len(p.C))
 		ttl := make([]int64, len(p.C))
 		for i, c := range p.C {
@@ -245,9 +253,6 @@ func stream(t *testing.T, backend string, exec func(k int, p plan) result) {
 			if res.attempts > 1 {
 				r.Count(fmt.Sprintf("runs_repeated_after_etcd_stall=%d", res.attempts-1))
 			}
-			if stalled(p, res) {
-				r.Count("runs_emitted_although_etcd_stalled")
-			}
 		}
 		r.Count("backend=" + backend)
 		r.Count(fmt.Sprintf("n=%d", len(p.C)))
@@ -262,6 +267,9 @@ func stream(t *testing.T, backend string, exec func(k int, p plan) result) {
 			r.Count("runs_with_unlock_error")
 		}
 		r.Add(term, desc, map[string]any{"backend": backend, "n": len(p.C)}, contention)
+	}
+	if dropped*2 > len(plans) {
+		t.Fatalf("more than half of the etcd runs were dropped because the embedded cluster stalled (%d of %d)", dropped, len(plans))
 	}
 	r.Finish("corpus of fixed plans (hand-over, busy try-lock, wait time-out, six lockers, uncontended lock / try-lock" +
 		", redis: acquisition on the 500 ms retry) then random plans: 2..6 contenders, Lock (70%) or TryLock, start delay 0..60 ms," +
